@@ -55,6 +55,7 @@ type Plan struct {
 	Knobs    Knobs      `json:"knobs"`
 	Scenario []ClientOp `json:"scenario"`
 	Faults   []Fault    `json:"faults"`
+	Probes   []ClientOp `json:"probes,omitempty"` // Get queries issued at quiescence
 	Sched    Sched      `json:"sched"`
 }
 
